@@ -290,6 +290,33 @@ pub fn run_case(c: &BkCase, stats: &mut Stats) -> Result<(), (String, String)> {
     let mut pre_acc = w.vm.clone();
     let _ = pre_acc.exec(&w.ix_accrue(target_bank));
     let ix = w.ix_bankruptcy(target_bank, victim.accts[0], signer);
+    // hostile presentation of the VAULT slot: the liquidity vault replaced by a token account of the same mint that is
+    // not the bank's (a user's; the bank's own fee vault). Judged by effect: whatever leaves the insurance vault must
+    // arrive in the bank's liquidity vault ("the debt is covered from the bank's insurance vault as far as it reaches").
+    {
+        let lv = w.banks[target_bank].lv;
+        let tkey0 = w.banks[target_bank].key;
+        for (name, sub) in [("a user's token account", anchor.tokens[target_bank]), ("the bank's fee vault", w.banks[target_bank].fv)] {
+            let mut v = ix.clone();
+            let Some(pos) = v.accounts.iter().position(|m| m.pubkey == lv) else { continue };
+            v.accounts[pos].pubkey = sub;
+            let mut vm = pre.clone();
+            stats.hostile_tried += 1;
+            if vm.exec(&v).is_ok() {
+                stats.hostile_accepted += 1;
+                let (b0, b1) = (bank_snap(&pre, &tkey0).unwrap(), bank_snap(&vm, &tkey0).unwrap());
+                let ins_out = b0.ins_vault as i128 - b1.ins_vault as i128;
+                let vault_in = b1.vault as i128 - b0.vault as i128;
+                let fee_allow = if w.banks[target_bank].spec.token == 2 { ins_out } else { 0 };
+                if ins_out > 0 && vault_in + fee_allow < ins_out || (ins_out > 0 && vault_in <= 0) {
+                    return Err((
+                        "bankruptcy:cover-paid-elsewhere".into(),
+                        format!("handle_bankruptcy with {name} in the liquidity-vault slot was accepted: the insurance vault paid {ins_out} but the bank's liquidity vault received {vault_in}"),
+                    ));
+                }
+            }
+        }
+    }
     let mut r = w.vm.exec(&ix).map_err(|e| err_code(&e));
     if r.is_err() {
         // hostile presentation of the observation accounts: the collateral bank's group left out, replaced by the debt
